@@ -80,7 +80,7 @@ def cfg(name, kind, alpha, filter="on", r=None, agg=None, hb=(), maxsize=0, keep
     """one configuration of the exhaustive family: model record C + how the harness realises it"""
     aggview = agg is not None and not advisory
     model = {"filter": filter, "res": r or res(), "agg": agg or DEFAULT_AGG[kind], "hb": list(hb), "maxsize": maxsize,
-             "ncpu": NCPU, "keep": keep, "async": kind in ASYNC}
+             "ncpu": NCPU, "keep": keep, "async": kind in ASYNC, "limit": 0}
     plain = keep["all"] and model["res"]["kind"] == "default" and not aggview
     spec = {"model": model, "kind": kind, "float": fl, "aggview": aggview, "keepmode": "" if keep["all"] else keepmode,
             "advisory": advisory, "name": "" if plain else "s." + name}
@@ -146,7 +146,9 @@ def sig_of(direction, new, v):
     if r == "default":
         r = "default-hist" if (C["agg"] == "hist" and C["hb"]) else "default-fixed"
     return {"dir": direction, "clause": v.get("clause"), "filter": C["filter"], "res": r, "agg": C["agg"], "temp": new["temp"],
-            "async": bool(C["async"]), "kind": meta.get("kind"), "filtered_view": not C["keep"]["all"]}
+            "async": bool(C["async"]), "kind": meta.get("kind"), "filtered_view": not C["keep"]["all"],
+            "cardinality_limit": bool(C.get("limit")),
+            "overflow_point": v.get("a") == [{"k": "otel.metric.overflow", "v": "BOOL:true"}]}
 
 
 def split_trace(path, max_lines, out_prefix):
@@ -235,7 +237,7 @@ def run(ctx):
     ctx.extra["random_worlds"] = n
     ctx.add_samples(rres["samples"][:1])
     for m in rres["mismatches"]:
-        ctx.violation({"dir": "random", "clause": "panic"}, replay=m)
+        ctx.violation({"dir": "random", "clause": "panic", "case": (m.get("case") or {}).get("directed", "random-world")}, replay=m)
     for s in rres["inconclusive"]:
         ctx.note_inconclusive(s)
 
@@ -293,7 +295,8 @@ def run(ctx):
             "random_concurrent_batches", "random_observations", "random_streams_res_fixed", "random_streams_res_hist",
             "random_streams_res_keepall", "random_streams_res_default", "random_streams_agg_expo", "random_streams_agg_hist",
             "random_streams_with_attribute_filter", "random_streams_fixed_k0", "random_worlds_filter_on",
-            "random_worlds_filter_trace", "random_worlds_filter_off"]
+            "random_worlds_filter_trace", "random_worlds_filter_off", "random_worlds_with_cardinality_limit",
+            "random_directed_worlds"]
     for k in need:
         if not counters.get(k):
             ctx.note_inconclusive("vacuity: counter %s is zero" % k)
